@@ -181,7 +181,11 @@ def hash_shard(config, seed, n_examples, import_ctx="top"):
             case = {"config": config, "part": "ggh", "bits": bits, "secret": secret}
             if gh.PRIME != p:
                 raise core.HarnessError("ggh_hash bound to another field")
-            out = gh.ggh_hash([rt.PrivVal(b) for b in bits] if secret else bits)
+            arg = [rt.PrivVal(b) for b in bits] if secret else list(bits)
+            arg0 = list(arg)
+            out = gh.ggh_hash(arg)
+            if len(arg) != len(arg0) or any(a is not b for a, b in zip(arg, arg0)):
+                fail(case, "ggh_hash changed the list it was given", "argument-altered")
             got = out.value if secret else out
             want = ref_ggh(bits, p)
             stats.case(case, True, ("ggh:" + ("secret" if secret else "plain"),), sample_cap=2)
@@ -239,9 +243,13 @@ def hash_shard(config, seed, n_examples, import_ctx="top"):
             vals.append(v)
         case = {"config": config, "part": "hash", "msg": vals, "kinds": "".join(kinds)}
         c0 = len(rec.cons)
+        given_ins = list(ins)
         out = ph.poseidon_hash(ins)
         got = [x.value % p for x in out]
         want = ref_hash(vals, consts, p)
+        # the caller's list is an argument, not scratch space: same length, same objects, and hashing it again gives the same
+        if len(ins) != len(given_ins) or any(a is not b for a, b in zip(ins, given_ins)):
+            fail(case, "poseidon_hash changed the list it was given (%d elements before the call, %d after)" % (len(given_ins), len(ins)), "argument-altered")
         nt = n >= 1 and any(v >= (1 << 128) for v in vals)
         stats.case(case if nt else None, nt, ("hash:len%d" % min(n, 9), "blocks:%d" % (n // 4 + 1)), sample_cap=2)
         if got != want:
@@ -251,6 +259,10 @@ def hash_shard(config, seed, n_examples, import_ctx="top"):
         for x, w in zip(out, want):
             if r1cs.lc_value(x.lc.d, rec.vals, p) != w:
                 fail(case, "hash output wire does not evaluate to the reference value", "hash")
+        if n % 3 == 0:
+            again = [x.value % p for x in ph.poseidon_hash(ins)]
+            if again != want:
+                fail(dict(case, twice=True), "hashing the same list %r a second time gives another digest" % (vals,), "hash")
         kept.append(("hash of %r" % (vals,), out, want, case))
         check_kept(case)
         counts.setdefault(("hash", n), set()).add(len(rec.cons) - c0)
@@ -402,8 +414,13 @@ def replay_inproc(case):
             ins = []
             for k, v in zip(c["kinds"], c["msg"]):
                 ins.append(ns.bo.PrivValBool(v) if k == "B" else ns.fx.PrivValFxp(v, False) if k == "F" else rt.PrivVal(v))
+            n_in = len(ins)
             out = ph.poseidon_hash(ins)
+            if len(ins) != n_in:
+                return "poseidon_hash changed the list it was given (%d elements before the call, %d after)" % (n_in, len(ins))
             results.append(("hash of %r" % (c["msg"],), out, ref_hash(c["msg"], consts, p)))
+            if c.get("twice"):
+                results.append(("second hash of the same list %r" % (c["msg"],), ph.poseidon_hash(ins), ref_hash(c["msg"], consts, p)))
     for what, out, want in results:
         if [x.value % p for x in out] != want:
             return "%s differs from the plain reference%s" % (what, " once all calls were made" if len(results) > 1 else "")
